@@ -70,6 +70,7 @@ def build(ctx):
     import resolvermodel
     resolvermodel.part_submod_fallback(ctx, eng, 'C13', resolvermodel.replay_submod_fallback)
     resolvermodel.part_find_external_module(ctx, eng, 'C13', resolvermodel.replay_find_external_module)
+    resolvermodel.part_walkers_pass_errors_on(ctx, eng, 'C13', resolvermodel.replay_walkers)
     resolvermodel.part_visit_sub_mod(ctx, eng, 'C13', resolvermodel.replay_visit_sub_mod)
 
 
